@@ -26,6 +26,51 @@ type tree struct {
 	namespace string            // the current namespace, for fully-qualifying template.
 	aliases   map[string]string // map from alias to namespace e.g. {"c": "a.b.c"}
 	inmsg     bool              // true while parsing children of a message node.
+	depth     int               // how deeply nested is the expression or block being parsed?
+}
+
+// maxDepth bounds the nesting of expressions and blocks. The parser, and every
+// pass over the tree after it, recurses once per level, and a goroutine stack
+// that outgrows its limit kills the process: an input nested some millions of
+// levels deep must be refused with an error instead.
+const maxDepth = 10000
+
+// nest is called on entry to a construct that may contain itself; the caller
+// defers t.unnest().
+func (t *tree) nest() {
+	t.depth++
+	if t.depth > maxDepth {
+		t.errorf("nested more than %d levels deep", maxDepth)
+	}
+}
+
+func (t *tree) unnest() {
+	t.depth--
+}
+
+// checkDepth refuses a tree that is more than maxDepth levels deep (a chain of
+// a million binary operators is, without any nesting in the source). It walks
+// the tree with a stack of its own.
+func (t *tree) checkDepth(root ast.Node) {
+	type level struct {
+		node  ast.Node
+		depth int
+	}
+	var stack = []level{{root, 1}}
+	for len(stack) > 0 {
+		var cur = stack[len(stack)-1]
+		stack = stack[:len(stack)-1]
+		if cur.depth > maxDepth {
+			t.errorfAt(cur.node.Position(), "nested more than %d levels deep", maxDepth)
+		}
+		if parent, ok := cur.node.(ast.ParentNode); ok {
+			for _, child := range parent.Children() {
+				if child != nil {
+					stack = append(stack, level{child, cur.depth + 1})
+				}
+			}
+		}
+	}
 }
 
 // SoyFile parses the input into a SoyFileNode (the AST).
@@ -39,6 +84,7 @@ func SoyFile(name, text string) (node *ast.SoyFileNode, err error) {
 	}
 	defer t.recover(&err)
 	t.root = t.itemList(itemEOF)
+	t.checkDepth(t.root)
 	t.lex = nil
 	return &ast.SoyFileNode{
 		Name: t.name,
@@ -51,6 +97,8 @@ func SoyFile(name, text string) (node *ast.SoyFileNode, err error) {
 //	textOrTag*
 // Terminates when it comes across the given end tag.
 func (t *tree) itemList(until ...itemType) *ast.ListNode {
+	t.nest()
+	defer t.unnest()
 	var list *ast.ListNode
 	for {
 		var token = t.next()
@@ -799,10 +847,11 @@ func (t *tree) parseHeaderParam(token item) ast.Node {
 func Expr(str string) (node ast.Node, err error) {
 	var t = &tree{lex: lexExpr("", str)}
 	defer t.recover(&err)
-	node = t.parseExpr(0)
+	var expr = t.parseExpr(0)
+	t.checkDepth(expr)
 	// let the scanner goroutine exit even if tokens follow the expression.
 	t.lex.drain()
-	return node, nil
+	return expr, nil
 }
 
 // boolAttr returns a boolean value from the given attribute map.
@@ -865,6 +914,8 @@ var precedence = map[itemType]int{
 // For handling binary operators, we use the Precedence Climbing algorithm described in:
 //   http://www.engr.mun.ca/~theo/Misc/exp_parsing.htm
 func (t *tree) parseExpr(prec int) ast.Node {
+	t.nest()
+	defer t.unnest()
 	n := t.parseExprFirstTerm()
 	var tok item
 	for {
